@@ -51,7 +51,12 @@ ASSUMPTIONS = [
     'are arrays or nested documents (bson_compare is not a strict weak order there), comparisons '
     'of library-generated ObjectIds, inexact floats ($avg of thirds), stage operands of an '
     'unexpected Python type where the outcome is an accident of `in` / iteration',
-    'the collections hold naive millisecond datetimes and explicit integer _ids; tz_aware=False',
+    'the collections hold naive millisecond datetimes and explicit integer _ids; tz_aware=False; '
+    'about one pipeline in ten writes its datetimes aware or with microseconds: Collection.aggregate '
+    'reads them as UTC milliseconds (fix d1da933), so the driver normalises the pipeline '
+    '(MongoModel.Pipe.normPipeline) before the stages of the model AND of the oracle see it — the '
+    'oracle speaks about the pipeline as the server is sent it — and the same pipeline with its '
+    'datetimes in stored form must answer the same (python only)',
     'error classes are compared between /repo and the model (wire.err_name); against the oracle '
     'only "raised / did not raise"',
     'MongoDB leaves the order of $group output unspecified: python is compared with the model in '
@@ -306,12 +311,8 @@ def direct_oracles(ctx, case, db, stats):
         # argument is rejected
         name = 'skip/limit=slice'
         got = agg(coll, [{op: opts}])
-        if isinstance(opts, float) and count_ok(opts, 0 if op == '$skip' else 1):
-            # MongoDB takes 2.0 as 2: listed finding `limitdouble`
-            if 'limitdouble' in KNOWN_DIRECT and isinstance(got, Exception):
-                ctx.known_seen['limitdouble'] = ctx.known_seen.get('limitdouble', 0) + 1
-                return
-            opts = int(opts)
+        if isinstance(opts, float) and opts.is_integer():
+            opts = int(opts)          # a double that holds a whole number is that integer
         if count_ok(opts, 0 if op == '$skip' else 1):
             allv = list(coll.find())
             want = allv[opts:] if op == '$skip' else allv[:opts]
@@ -559,6 +560,43 @@ def group_lookup_oracles(ctx, case, db, stats):
                           rank=150 + len(repr(docs)))
 
 
+def as_stored_dates(v):
+    """the value with every datetime as the server would be sent it: UTC, whole milliseconds —
+    what `Collection.aggregate` makes of the datetimes written in a pipeline (written here
+    independently of the library's helper)"""
+    import datetime as _dt
+    if isinstance(v, dict):
+        return type(v)((k, as_stored_dates(x)) for k, x in v.items())
+    if isinstance(v, (list, tuple)):
+        return [as_stored_dates(x) for x in v]
+    if isinstance(v, _dt.datetime):
+        if v.tzinfo is not None:
+            v = v.astimezone(_dt.timezone.utc).replace(tzinfo=None)
+        return v.replace(microsecond=v.microsecond // 1000 * 1000)
+    return v
+
+
+def date_form_oracle(ctx, case, db, full, stats):
+    """a datetime written in the pipeline is read as the UTC millisecond it denotes: the pipeline
+    gives what the same pipeline with its datetimes written in stored form gives (python only)"""
+    p = case['pipeline']
+    q = as_stored_dates(p)
+    if not isinstance(p, list) or wire.pretty(q) == wire.pretty(p):
+        return
+    stats['pipeline dates=stored form'] += 1
+    other = agg(db.c, q)
+    same_out = (isinstance(full, Exception) and isinstance(other, Exception)) or (
+        not isinstance(full, Exception) and not isinstance(other, Exception) and
+        full == other and [list(a) for a in full] == [list(b) for b in other])
+    if not same_out:
+        oids = wire.Oids()
+        ctx.violation(render(case, kind='a datetime written in the pipeline (aware, or with '
+                             'microseconds) is not read as the UTC millisecond it denotes: the '
+                             'same pipeline with its datetimes in stored form answers something '
+                             'else', py=show_safe(full, oids), stored_form=show_safe(other, oids)),
+                      rank=120 + len(repr(p)))
+
+
 def storable(docs):
     ids = []
     for d in docs:
@@ -590,8 +628,10 @@ def prefix_law(ctx, case, db, full, rng, stats):
         try:
             with warnings.catch_warnings():
                 warnings.simplefilter('ignore')
+                # (the stage machinery is entered below `Collection.aggregate`, which is where
+                # the datetimes of a pipeline are normalised)
                 rest = list(_agg.process_pipeline(copy.deepcopy(mid), db.c.database,
-                                                  copy.deepcopy(p[k:]), None))
+                                                  as_stored_dates(copy.deepcopy(p[k:])), None))
         except Exception as e:  # pylint: disable=broad-except
             rest = e
         stats['prefix law checked (unstored)'] += 1
@@ -702,6 +742,7 @@ def run_cases(ctx, cases, judge, rng, stats, oracles=True):
             continue
         if oracles:
             rejected_oracle(ctx, c, full, stats)
+            date_form_oracle(ctx, c, db, full, stats)
             for orc in (direct_oracles, group_lookup_oracles):
                 try:
                     orc(ctx, c, db, stats)
